@@ -74,7 +74,7 @@ var specs = map[string]*spec{
 		Probes: []string{"ae-truncated-follower", "ae-accepted-with-entries"}},
 	"C07": {ID: "C07", Profiles: []string{"core", "election"}, Engine: "cluster", Accept: []string{"C07"}, Level: "exploration",
 		Rule: "one run = one seeded cluster simulation; at the first sample showing a node as leader of a term its log must hold every committed entry. Non-trivial: >= 2 leaders elected with >= 1 committed entry. Distinct: distinct event-log hashes among those."},
-	"C08": {ID: "C08", Profiles: []string{"election", "durability"}, Engine: "cluster", Accept: []string{"C08"}, Level: "exploration",
+	"C08": {ID: "C08", Profiles: []string{"election", "durability", "election", "snapshot"}, Engine: "cluster", Accept: []string{"C08"}, Level: "exploration",
 		Rule: "one run = one seeded cluster simulation; per node across incarnations: terms in replies/status/reloads never decrease, one candidate per term (grants and persisted votes), votes only for up-to-date logs, prevotes inert. Non-trivial: >= 1 real vote granted and >= 1 crash. Distinct: distinct event-log hashes among those.",
 		Probes: []string{"vote-granted", "prevote-granted"}},
 	"C09": {ID: "C09", Profiles: []string{"membership"}, Engine: "cluster", Accept: []string{"C09"}, Level: "exploration",
@@ -93,6 +93,7 @@ var specs = map[string]*spec{
 	"C18": {ID: "C18", Profiles: []string{"api", "membership"}, Engine: "cluster", Accept: []string{"C18"}, Level: "exploration",
 		Rule: "one run = one seeded cluster simulation with an API fuzzer task per node (status/configuration rendering, submissions of every and of invalid operation types, empty payloads, zero/huge timeouts, membership requests with existing/unknown/own ids, Bootstrap again, Start/Restart on a running node, Stop+Restart, Stop+Start, Stop twice) in whatever state the node is in; the membership profile contributes the membership-future obligation. Non-trivial: >= 10 API calls were made. Distinct: distinct event-log hashes among those.",
 		Probes: []string{"api-calls", "api-in-state-0", "api-in-state-1", "api-in-state-2", "api-in-state-3", "api-in-state-4", "graceful-restart", "membership-change-applied-by-its-leader"}},
+	"C20": {ID: "C20", Engine: "race", Accept: []string{"C20"}, Level: "exploration"},
 	"C10": {ID: "C10", Profiles: []string{"snapshot"}, Engine: "cluster", Accept: []string{"C10"}, Level: "exploration",
 		Rule: "one run = one seeded cluster simulation with snapshots on, slow state machine, lagging followers. Non-trivial: >= 1 snapshot became visible. Distinct: distinct event-log hashes among those.",
 		Probes: []string{"snapshot-visible", "snapshot-installed", "snapshot-during-apply", "snapshot-larger-than-chunk", "restore-during-apply"}},
@@ -101,7 +102,7 @@ var specs = map[string]*spec{
 		Probes: []string{"snapshot-installed", "log-discarded", "log-compacted", "partial-snapshot-discarded", "installsnapshot-second-chunk"}},
 	"C14": {ID: "C14", Profiles: []string{"crashsweep"}, Engine: "cluster", Accept: []string{"C14"}, Level: "exploration",
 		Rule: "one run = one seeded cluster simulation with snapshots on and crashes immediately before/after/inside the k-th storage operation of a node. Non-trivial: >= 1 crash at a storage operation followed by a restart. Distinct: distinct event-log hashes among those."},
-	"C15": {ID: "C15", Profiles: []string{"liveness", "core", "liveness", "membership"}, Engine: "cluster", Accept: []string{"C15"}, Level: "exploration",
+	"C15": {ID: "C15", Profiles: []string{"liveness", "core", "membership", "reads"}, Engine: "cluster", Accept: []string{"C15"}, Level: "exploration",
 		Rule: "one run = one seeded faulty cluster simulation followed by a fault-free phase of 60 election timeouts. Non-trivial: >= 1 fault fired before the heal phase. Distinct: distinct event-log hashes among those.",
 		Probes: []string{"heal-converged", "heal-restarted-bare-majority"}},
 }
